@@ -207,10 +207,20 @@ def run(facts, tr, rep):
                         cc = tr.call_of(lf)
                         cap = [peel(tr.expand(tr.operand(cc.g.b, a, cc.loc))) for a in cc.args]
                         good = any(derives(tr, x, node, variants=("Some",)) for x in cap)
+                    elif lf[0] == "call" and tr.call_of(lf).def_ == "core::cmp::Ord::clamp" and len(tr.call_of(lf).args) == 3:
+                        # `x.clamp(ZERO, m)` is `x.min(m)` for a Duration (and cannot panic: ZERO <= m); any other lower
+                        # bound can exceed m, and clamp panics then
+                        cc = tr.call_of(lf)
+                        lo, hi = [peel(tr.expand(tr.operand(cc.g.b, a, cc.loc))) for a in cc.args[1:]]
+                        good = lo[0] == "const" and (lo[2] or "").endswith("Duration::ZERO") and derives(tr, hi, node, variants=("Some",))
                     ok = ok and good
             # the jittered function applies the cap before randomising: accept when the capped value flows on
             if not any_ret:
-                mins = [c for c in g.calls() if c.def_ in ("core::cmp::Ord::min", "core::cmp::min") and g.edge_dominates((i, some_bb), c.bb)]
+                def _zero_lo(c_):
+                    lo_ = peel(tr.expand(tr.operand(c_.g.b, c_.args[1], c_.loc))) if len(c_.args) == 3 else ("?",)
+                    return lo_[0] == "const" and (lo_[2] or "").endswith("Duration::ZERO")
+                mins = [c for c in g.calls() if (c.def_ in ("core::cmp::Ord::min", "core::cmp::min") or (c.def_ == "core::cmp::Ord::clamp" and _zero_lo(c)))
+                        and g.edge_dominates((i, some_bb), c.bb)]
                 ok = bool(mins)
             rep.ob("C14.CAP", skey(b, "cap#%d" % (ncap - 1)), ok, g.where(i),
                    "with max_interval = Some(m) the delay passes through min(_, m)" if ok else
@@ -347,6 +357,15 @@ def _check_fallback_match(tr, rep, b, g, c, V):
             s2 = g.switch(b2)
             if s2 is None or s2.kind != "bool":
                 continue
+            cnd = peel(tr.expand(tr.operand(b, s2.cond, (b2, len(g.stmts(b2))))))
+            neg = False
+            while cnd[0] == "unop" and cnd[1] == "Not":
+                cnd, neg = peel(cnd[2]), not neg
+            if cnd[0] == "call" and tr.call_of(cnd).name == "is_nan" and tr.call_of(cnd).args:
+                cc_ = tr.call_of(cnd)
+                if x is None or peel(tr.expand(tr.operand(cc_.g.b, cc_.args[0], cc_.loc))) == x:
+                    sign_false.append((b2, s2.variants["false" if neg else "true"]))      # a NaN is not positive
+                    continue
             cm = normalise_cmp(tr, peel(tr.expand(tr.operand(b, s2.cond, (b2, len(g.stmts(b2)))))))
             if cm and cm[0] in ("Gt", "Ge") and peel(cm[2])[0] == "const" and (x is None or peel(cm[1]) == x):
                 sign_false.append((b2, s2.variants["false"]))
